@@ -82,12 +82,16 @@ class Stats:
         self.cases = 0
         self.evaluations = 0
         self.nontrivial = set()
+        self.nontrivial_n = 0     # cases that are distinct by construction (counted, not stored)
         self.outcomes = set()
         self.fails = []
         self.extra = {}
         self.samples = []
         self.harness_errors = []
         self.info = {}
+
+    def n_nontrivial(self):
+        return len(self.nontrivial) + self.nontrivial_n
 
     def add(self, case, r):
         self.cases += 1
@@ -96,6 +100,7 @@ class Stats:
             return
         self.evaluations += r.get("n", 1)
         self.nontrivial.update(r.get("nontrivial", ()))
+        self.nontrivial_n += r.get("nontrivial_n", 0)
         self.outcomes.update(r.get("outcomes", ()))
         for f in r.get("fails", ()):
             f = dict(f)
@@ -257,13 +262,13 @@ def run_check(mod, tier, seed, replay=None, max_judged=6):
     nv = len(violations)
     ok_vac = write_evidence(mod, desc, st, tier, seed, t0, capped, violations=nv, known=sorted(printed_known))
     dt = time.time() - t0
-    print(f"{prop} {tier}: cases={st.cases} evaluations={st.evaluations} nontrivial={len(st.nontrivial)} "
+    print(f"{prop} {tier}: cases={st.cases} evaluations={st.evaluations} nontrivial={st.n_nontrivial()} "
           f"outcomes={len(st.outcomes)} violations={nv} known={len(printed_known)} wall={dt:.1f}s"
           + (" CAPPED" if capped else ""))
     if nv:
         return 1
     if not ok_vac:
-        print(f"HARNESS-ERROR property={prop} vacuous exploration: nontrivial={len(st.nontrivial)} "
+        print(f"HARNESS-ERROR property={prop} vacuous exploration: nontrivial={st.n_nontrivial()} "
               f"below the check's minimum {desc.get('min_nontrivial', 2)}", file=sys.stderr)
         return 2
     return 0
@@ -273,7 +278,7 @@ def write_evidence(mod, desc, st, tier, seed, t0, capped, violations, known=(), 
     from . import harness
     cov = {
         "evaluations": st.evaluations,
-        "distinct_nontrivial": len(st.nontrivial),
+        "distinct_nontrivial": st.n_nontrivial(),
         "distinct_outcomes": len(st.outcomes),
         "cases": st.cases,
         "rule": desc["rule"],
@@ -299,7 +304,7 @@ def write_evidence(mod, desc, st, tier, seed, t0, capped, violations, known=(), 
     os.makedirs(d, exist_ok=True)
     with open(os.path.join(d, mod.PROP + ".json"), "w") as f:
         json.dump(doc, f, indent=1, default=str)
-    return len(st.nontrivial) >= desc.get("min_nontrivial", 2)
+    return st.n_nontrivial() >= desc.get("min_nontrivial", 2)
 
 
 def product(**dims):
